@@ -861,7 +861,7 @@ class Interp:
             fval = env[_path(c.func)]     # a callable stored in an attribute (self.callable(...))
         if isinstance(fval, LocalFn) and depth < self.max_depth:
             return self.call_local(fval, args, kwargs, depth, env)
-        if isinstance(fval, Sym) and isinstance(c.func, ast.Name) and "." in fval.tag and not any(ch in fval.tag for ch in "([ :") \
+        if isinstance(fval, Sym) and isinstance(c.func, (ast.Name, ast.Subscript)) and "." in fval.tag and not any(ch in fval.tag for ch in "([ :") \
                 and not getattr(self, "_redispatch", False):
             # a bound method kept in a local name (distance = grammar.get_distance_to_terminal; distance(x)): call it on its object
             base_tag, attr_ = fval.tag.rsplit(".", 1)
@@ -1042,6 +1042,23 @@ class Interp:
                     acc_ = acc_ + x
                     res_.append(acc_)
                 return res_
+            if nm == "accumulate" and len(args) == 2 and isinstance(args[0], list) and not kwargs and nm not in env:
+                # accumulate(xs, f): running application of f
+                res_ = []
+                for i_, x in enumerate(args[0]):
+                    if i_ == 0:
+                        acc_ = x
+                    elif isinstance(args[1], TypeV) and args[1].kind == "builtin":
+                        acc_ = UNKNOWN
+                    else:
+                        acc_ = self.apply(args[1], [acc_, x], env, depth)
+                    res_.append(acc_)
+                return res_
+            if nm == "setattr" and len(args) == 3 and isinstance(args[1], str) and args[1].isidentifier() and "setattr" not in env and len(c.args) == 3:
+                # setattr(obj, "name", value) is obj.name = value
+                tgt_ = ast.copy_location(ast.Attribute(value=c.args[0], attr=args[1], ctx=ast.Store()), c)
+                self.assign(tgt_, args[2], env, c)
+                return None
             if nm == "deque" and len(args) <= 1:
                 return list(args[0]) if args and isinstance(args[0], list) else [] if not args else UNKNOWN
             if nm in ("list", "tuple") and not args and not kwargs:
@@ -1070,6 +1087,28 @@ class Interp:
             if nm == "range" and 1 <= len(args) <= 3 and all(isinstance(a, int) and not isinstance(a, bool) for a in args) \
                     and (len(args) < 3 or args[2] != 0) and len(range(*args)) <= 12:
                 return list(range(*args))
+            if nm == "partial" and args and nm not in env and isinstance(args[0], (LocalFn, Sym, BoundOp)):
+                return BoundOp("partial", (args[0], list(args[1:]), dict(kwargs)))
+            if nm == "compress" and len(args) == 2 and all(isinstance(a_, list) for a_ in args) and nm not in env:
+                sel_ = [self.truthy(x_) if not isinstance(x_, bool) else x_ for x_ in args[1]]
+                return [d_ for d_, s_ in zip(args[0], sel_) if s_]
+            if nm in ("bisect_right", "bisect_left", "bisect") and len(args) == 2 and isinstance(args[0], list) and all(_is_num(x_) for x_ in args[0]) and _is_num(args[1]) \
+                    and nm not in env:
+                import bisect as _bs
+                return (_bs.bisect_left if nm == "bisect_left" else _bs.bisect_right)(args[0], args[1])
+            if nm == "reduce" and 2 <= len(args) <= 3 and isinstance(args[1], list) and nm not in env:
+                seq_ = list(args[1])
+                if len(args) == 3:
+                    acc_ = args[2]
+                elif seq_:
+                    acc_, seq_ = seq_[0], seq_[1:]
+                else:
+                    self.throw("TypeError: reduce() of empty iterable with no initial value", c)
+                for x_ in seq_:
+                    acc_ = self.apply(args[0], [acc_, x_], env, depth)
+                return acc_
+            if nm == "pairwise" and len(args) == 1 and isinstance(args[0], list) and nm not in env:
+                return [[a_, b_] for a_, b_ in zip(args[0], args[0][1:])]
             if nm == "next" and 1 <= len(args) <= 2 and isinstance(args[0], list):
                 if args[0]:
                     return args[0][0]
@@ -1358,6 +1397,45 @@ def _install():
                 return self.ev(ast.fix_missing_locations(node), {"__b": fv.target, "__i": args[0]}, depth)
         if isinstance(fv, TypeV) and fv.kind == "builtin" and fv.name == "str" and len(args) == 1 and isinstance(args[0], (TypeV, Sym, str, int)):
             return args[0].name if isinstance(args[0], TypeV) else args[0].tag if isinstance(args[0], Sym) else str(args[0])
+        if isinstance(fv, Sym) and fv.tag.count(".") == 1 and fv.tag.split(".")[0] in env and not any(ch in fv.tag for ch in "([ :~") \
+                and not fv.tag.startswith("operator.") and not getattr(self, "_redispatch_apply", False):
+            # a bound method used as a value (reduce(self.step, xs, init), map(self.f, xs)): called on its object
+            base_, attr_ = fv.tag.split(".")
+            env2 = dict(env)
+            names_ = []
+            for i_, a_ in enumerate(args):
+                env2[f"__a{i_}"] = a_
+                names_.append(ast.Name(id=f"__a{i_}", ctx=ast.Load()))
+            fake = ast.Call(func=ast.Attribute(value=ast.Name(id=base_, ctx=ast.Load()), attr=attr_, ctx=ast.Load()), args=names_, keywords=[])
+            self._redispatch_apply = True
+            try:
+                return self.ev(ast.fix_missing_locations(fake), env2, depth)
+            finally:
+                self._redispatch_apply = False
+        if isinstance(fv, Sym) and fv.tag.startswith("builtin:"):
+            # a builtin function passed as a value (accumulate(xs, max), map(str, xs)): the call is evaluated as if written out
+            names_ = [f"__a{i_}" for i_ in range(len(args))]
+            fake = ast.Call(func=ast.Name(id=fv.tag[8:], ctx=ast.Load()), args=[ast.Name(id=n_, ctx=ast.Load()) for n_ in names_], keywords=[])
+            return self.ev(ast.fix_missing_locations(fake), dict(zip(names_, args)), depth)
+        if isinstance(fv, BoundOp) and fv.kind == "partial":
+            f0, a0, k0 = fv.target
+            if isinstance(f0, LocalFn):
+                return self.call_local(f0, list(a0) + list(args), dict(k0), depth, env)
+            if k0 and isinstance(f0, Sym) and f0.tag.count(".") == 1 and f0.tag.split(".")[0] in env and not any(ch in f0.tag for ch in "([ :~"):
+                base_, attr_ = f0.tag.split(".")
+                env2 = dict(env)
+                names_, kws_ = [], []
+                for i_, a_ in enumerate(list(a0) + list(args)):
+                    env2[f"__a{i_}"] = a_
+                    names_.append(ast.Name(id=f"__a{i_}", ctx=ast.Load()))
+                for k_, v_ in k0.items():
+                    env2[f"__k_{k_}"] = v_
+                    kws_.append(ast.keyword(arg=k_, value=ast.Name(id=f"__k_{k_}", ctx=ast.Load())))
+                fake = ast.Call(func=ast.Attribute(value=ast.Name(id=base_, ctx=ast.Load()), attr=attr_, ctx=ast.Load()), args=names_, keywords=kws_)
+                return self.ev(ast.fix_missing_locations(fake), env2, depth)
+            if k0:
+                return UNKNOWN
+            return self.apply(f0, list(a0) + list(args), env, depth)
         if isinstance(fv, Sym) and fv.tag in ("operator.getitem", "operator.contains") and len(args) == 2:
             return self.apply(BoundOp("__getitem__" if fv.tag.endswith("getitem") else "__contains__", args[0]), [args[1]], env, depth)
         if isinstance(fv, Sym) and fv.tag.startswith("operator.") and fv.tag[9:] in _ARITH_OPS and len(args) == _ARITH_OPS[fv.tag[9:]][1]:
